@@ -11,7 +11,7 @@ use crate::props::c13::check_container;
 use crate::runner::{CheckResult, Env, Job, Outcome, PropJob};
 use crate::util::{rc, splitmix, to_ascii, Seq};
 
-pub const RULE: &str = "views: case = backing string (length mixture 0..300, with boundary lengths) x history of 0..6 steps from {slice(a,b), rc(), prefix-like slice(0,b), suffix-like slice(a,len)} applied to a DnaString slice, a prefix(), a suffix() or a PackedDnaStringSet entry/slice; after EVERY step get/len/is_empty/bytes/ascii/to_dna_string/Display/Debug (length < 256: the bases; otherwise the descriptor's len and is_rc must be truthful)/iter/IntoIterator/to_owned (==, Hash, Ord, ndiffs against from_bytes of the model)/== against equal and unequal content elsewhere/k-mer accessors for K in {3,5,8,12,16,32,48,64} equal the corresponding substring (reverse-complemented when flagged) of the plain vector. distances: case = two equal-length slices (length mixture incl. 1023,1024,1025,2048,4096+) of different strings at different offsets, each forward or reverse-complemented, differing at generated positions biased to the first and last 64; hamming_dist must equal the naive count, symmetrically. Non-trivial = depth >= 2 with >= 1 rc, or a distance case with length >= 1024.";
+pub const RULE: &str = "views: case = backing string (length mixture 0..300, with boundary lengths) x history of 0..6 steps from {slice(a,b), rc(), prefix-like slice(0,b), suffix-like slice(a,len)} applied to a DnaString slice, a prefix(), a suffix() or a PackedDnaStringSet entry/slice; after EVERY step get/len/is_empty/bytes/ascii/to_dna_string/Display/Debug (length < 256: the bases; otherwise the descriptor's len and is_rc must be truthful)/iter/IntoIterator/to_owned (==, Hash, Ord, ndiffs against from_bytes of the model)/== against equal and unequal content elsewhere and against other views of the same string (its own rc() view, overlapping views)/k-mer accessors for K in {3,5,8,12,16,32,48,64} equal the corresponding substring (reverse-complemented when flagged) of the plain vector. distances: case = two equal-length slices (length mixture incl. 1023,1024,1025,2048,4096+) of different strings at different offsets, each forward or reverse-complemented, differing at generated positions biased to the first and last 64; hamming_dist must equal the naive count, symmetrically. Non-trivial = depth >= 2 with >= 1 rc, or a distance case with length >= 1024.";
 pub const TECHNIQUE: &str = "seeded proptest over nested slice/rc histories against a substring model; naive Hamming count";
 
 #[derive(Debug, Clone, Serialize, Deserialize)]
